@@ -69,7 +69,13 @@ impl PatternSet {
 
                 if s_idx < input.len() {
                     let c = input[s_idx];
-                    if p == c || p == b'?' {
+                    if p == b'?' {
+                        // `?` matches one character, which may span several bytes
+                        p_idx += 1;
+                        s_idx += Self::char_width(c);
+                        continue;
+                    }
+                    if p == c {
                         p_idx += 1;
                         s_idx += 1;
                         continue;
@@ -83,14 +89,25 @@ impl PatternSet {
                 return true;
             }
 
-            if s_back + 1 < input.len() {
-                s_back += 1;
+            if s_back < input.len() && s_back + Self::char_width(input[s_back]) < input.len() {
+                // let `*` swallow one more whole character
+                s_back += Self::char_width(input[s_back]);
                 p_idx = p_back;
                 s_idx = s_back;
                 continue;
             }
 
             return false;
+        }
+    }
+
+    /// Width in bytes of the UTF-8 encoded character that starts with `first_byte`.
+    fn char_width(first_byte: u8) -> usize {
+        match first_byte {
+            0xF0..=0xFF => 4,
+            0xE0..=0xEF => 3,
+            0xC0..=0xDF => 2,
+            _ => 1,
         }
     }
 }
